@@ -171,7 +171,8 @@ fn parse_unit(path: &str, unit: &mut Unit) {
                         "fn" => cur.as_mut().unwrap().fns.push(FnSpec { name: arg.to_string(), sections: vec![], optional: false }),
                         "fn?" => cur.as_mut().unwrap().fns.push(FnSpec { name: arg.to_string(), sections: vec![], optional: true }),
                         "ret" | "sig" | "param" | "loop" | "closure" | "before" | "after" | "inside-start" | "inside-end" | "wrap" | "replace"
-                        | "delete" | "before-each" | "after-each" | "header" | "arg-each" | "splice" | "members" | "wrap-each" | "replace-each" | "delete-each" => {
+                        | "delete" | "before-each" | "after-each" | "header" | "arg-each" | "splice" | "members" | "wrap-each" | "replace-each" | "delete-each"
+                        | "guard" | "guard-param" | "unwind-each" => {
                             cur_sec = Some(Section { kind: kw.to_string(), arg: arg.to_string(), line0: ln + 1, file: path.to_string(), text: String::new() });
                         }
                         _ => undecided(&format!("{path}:{ln}: unknown directive //@{kw}")),
@@ -247,6 +248,8 @@ struct Scan {
     fn_block: Range<usize>,
     // every block's statements in order (ranges), for hint relocation to a sibling statement
     blocks: Vec<Vec<Range<usize>>>,
+    // parallel to `blocks`: (the block's range incl. braces, its tail expression if the last statement is an expression without `;`)
+    block_info: Vec<(Range<usize>, Option<Range<usize>>)>,
 }
 
 impl Scan {
@@ -304,6 +307,11 @@ impl<'ast> Visit<'ast> for Scan {
     fn visit_block(&mut self, b: &'ast syn::Block) {
         let list: Vec<Range<usize>> = b.stmts.iter().filter(|s| !matches!(s, syn::Stmt::Item(_))).map(|s| br(s.span())).collect();
         self.blocks.push(list);
+        let tail = match b.stmts.last() {
+            Some(syn::Stmt::Expr(e, None)) => Some(br(e.span())),
+            _ => None,
+        };
+        self.block_info.push((br(b.span()), tail));
         syn::visit::visit_block(self, b);
     }
     fn visit_stmt(&mut self, s: &'ast syn::Stmt) {
@@ -345,7 +353,7 @@ impl<'ast> Visit<'ast> for Scan {
             syn::Expr::Loop(w) => self.push("loop", String::new(), r, Some(br(w.body.span())), Some(br(w.body.span()).start), None),
             syn::Expr::If(w) => self.push("if", String::new(), r, Some(br(w.then_branch.span())), None, None),
             syn::Expr::Match(_) => self.push("match", String::new(), r, None, None, None),
-            syn::Expr::Return(_) => self.push("return", String::new(), r, None, None, None),
+            syn::Expr::Return(x) => self.push("return", String::new(), r, None, None, x.expr.as_ref().map(|e| br(e.span()))),
             syn::Expr::Break(_) => self.push("break", String::new(), r, None, None, None),
             syn::Expr::Continue(_) => self.push("continue", String::new(), r, None, None, None),
             syn::Expr::Assign(a) => self.push("assign", base_ident(&a.left), r, None, None, None),
@@ -684,6 +692,7 @@ struct Gen<'a> {
     hint_keys: Vec<String>,
     // locals / parameters renamed since the anchors were recorded (old -> new), applied to the spliced text
     renames: Vec<(String, String)>,
+    in_sub: bool,
 }
 
 /// A hint may be relocated by the proof-repair search only if it is pure proof text: it must not assign to any
@@ -894,6 +903,7 @@ impl<'a> Gen<'a> {
                     // its name with a local, e.g. the lock model's `state`, IS followed - the body text refers to it)
                     let ret_names: Vec<String> = out.sections.iter().filter(|s| s.kind == "ret").map(|s| s.arg.trim().to_string()).collect();
                     let sig_map: Vec<(String, String)> = map.iter().filter(|(o, _)| !ret_names.contains(o) || param_map.iter().any(|(po, _)| po == o)).cloned().collect();
+                    let before: Vec<(String, String)> = out.sections.iter().map(|s| (s.arg.clone(), s.text.clone())).collect();
                     for s in out.sections.iter_mut() {
                         if matches!(s.kind.as_str(), "sig" | "ret" | "param") {
                             s.text = rename_idents(&s.text, &sig_map);
@@ -901,6 +911,15 @@ impl<'a> Gen<'a> {
                         }
                         s.arg = rename_anchor_arg(&s.arg, &map);
                         s.text = rename_idents(&s.text, &map);
+                    }
+                    // the unit's text for this function never mentions the renamed identifiers (and no hand-written wrapper
+                    // around a sub-region can either, see `renames`): the renaming cannot be at fault for anything, so it is
+                    // not a reason to downgrade a failing contract to UNDECIDED
+                    let changed = out.sections.iter().zip(before.iter()).any(|(s, (a, t))| s.arg != *a || s.text != *t);
+                    let wrapper_mentions = self.in_sub; // a hand-written wrapper around a sub-region may name the locals: keep following
+                    if !changed && !wrapper_mentions {
+                        self.observed.insert(key, (joined, b.0.len(), 0, 0, 0));
+                        return out;
                     }
                     let what = map.iter().filter(|(o, _)| olds.contains(&o.as_str())).map(|(o, n)| format!("{o} -> {n}")).collect::<Vec<_>>().join(", ");
                     self.log.push(json!({"rule": "renamed-local", "file": self.repo_file, "line": self.line_of(br(sig.span()).start), "old": what, "note": format!("fn {fname}: bound identifiers renamed since the anchors were recorded; the unit's text for this function is renamed accordingly")}));
@@ -1011,12 +1030,13 @@ impl<'a> Gen<'a> {
     fn do_fn_sub(&mut self, attrs: &[syn::Attribute], vis: Option<&syn::Visibility>, sig: &syn::Signature, block: Option<&syn::Block>, spec: Option<&FnSpec>, in_trait_impl: bool, sub: Option<&str>) -> Option<Range<usize>> {
         let fname = sig.ident.to_string();
         let ctx = format!("{} fn {}", self.ctx, fname);
+        self.in_sub = sub.is_some();
         let renamed_spec = spec.map(|s| self.rename_locals(sig, block, s, &fname));
         let spec = renamed_spec.as_ref();
         if sub.is_some() {
             let Some(block) = block else { undecided(&format!("{ctx}: no body")) };
             let blk = br(block.span());
-            let mut scan = Scan { nodes: vec![], stmts: vec![], fn_block: blk.clone(), blocks: vec![] };
+            let mut scan = Scan { nodes: vec![], stmts: vec![], fn_block: blk.clone(), blocks: vec![], block_info: vec![] };
             scan.visit_block(block);
             scan.nodes.push(Node { kind: "start", name: String::new(), range: blk.start + 1..blk.start + 1, stmt: blk.start + 1..blk.start + 1, block: Some(blk.clone()), header_end: None, body: None, aux: None });
             scan.nodes.push(Node { kind: "end", name: String::new(), range: blk.end - 1..blk.end - 1, stmt: blk.end - 1..blk.end - 1, block: Some(blk.clone()), header_end: None, body: None, aux: None });
@@ -1121,7 +1141,7 @@ impl<'a> Gen<'a> {
             self.ins(blk.start + 1, " assert(false); ".into(), o, "canary");
         }
         // scan the body
-        let mut scan = Scan { nodes: vec![], stmts: vec![], fn_block: blk.clone(), blocks: vec![] };
+        let mut scan = Scan { nodes: vec![], stmts: vec![], fn_block: blk.clone(), blocks: vec![], block_info: vec![] };
         scan.visit_block(block);
         scan.nodes.push(Node { kind: "start", name: String::new(), range: blk.start + 1..blk.start + 1, stmt: blk.start + 1..blk.start + 1, block: Some(blk.clone()), header_end: None, body: None, aux: None });
         scan.nodes.push(Node { kind: "end", name: String::new(), range: blk.end - 1..blk.end - 1, stmt: blk.end - 1..blk.end - 1, block: Some(blk.clone()), header_end: None, body: None, aux: None });
@@ -1150,11 +1170,12 @@ impl<'a> Gen<'a> {
 
     fn body_sections(&mut self, scan: &Scan, spec: &FnSpec, ctx: &str) {
         let scan = scan;
+        self.unwind_rule(scan, spec, ctx);
         for s in &spec.sections {
             let o = Origin::Unit { file: s.file.clone(), line: s.line0 };
             let sctx = format!("{ctx} ({}:{})", s.file, s.line0 - 1);
             match s.kind.as_str() {
-                "ret" | "sig" | "param" => {}
+                "ret" | "sig" | "param" | "guard" | "guard-param" | "unwind-each" => {}
                 "loop" if s.arg.trim().ends_with(".chain") => {
                     if !self.rules.contains("R12") {
                         undecided(&format!("{sctx}: //@loop K.chain needs rule R12"));
@@ -1314,6 +1335,169 @@ impl<'a> Gen<'a> {
                     self.rep(inner_r.end..outer.range.end, t[p + 2..].to_string(), o, &sec);
                 }
                 other => undecided(&format!("{sctx}: section //@{other} not valid in a function")),
+            }
+        }
+    }
+
+    /// Rule R17 - implicit drop edges made explicit, on the normal AND on the unwinding path.
+    ///   //@guard R17 ANCHOR [argc=0] | DROP-TEXT   every `let NAME = <.. a node matching ANCHOR ..>;` declares a scope guard; DROP-TEXT
+    ///                                          (with `$g` = NAME) is the statement that runs its destructor; `argc=0` restricts the pattern
+    ///                                          to calls without arguments
+    ///   //@guard-param R17 NAME | DROP-TEXT    a by-value parameter with a destructor (dropped after every local, at the end of the body)
+    ///   //@unwind-each R17 ANCHOR              every node matching ANCHOR is a call that may panic; the section text is a template with
+    ///                                          `$$` = the call's real text and `$unwind` = the destructor statements of the guards that are
+    ///                                          LIVE at that point, in reverse declaration order (what unwinding runs)
+    /// Normal path: at the end of the block that declares a guard the destructors run after the block's tail expression has been
+    /// evaluated: `{ ..; T }` becomes `{ ..; let __r17 = T; DROPS __r17 }`. The guards are found by PATTERN in the real text (like the
+    /// effect sinks of R9): a body that no longer binds the guard gets no destructor call, and is judged so.
+    /// Not supported (UNDECIDED, never an alarm): `return` / `?` while a guard is live, `break` / `continue` out of a guard's block,
+    /// a guard expression that is not bound by a plain `let NAME`.
+    fn unwind_rule(&mut self, scan: &Scan, spec: &FnSpec, ctx: &str) {
+        #[allow(dead_code)]
+        struct Guard { name: String, let_end: usize, block: Range<usize>, bidx: usize, drop: String }
+        let secs: Vec<&Section> = spec.sections.iter().filter(|s| matches!(s.kind.as_str(), "guard" | "guard-param" | "unwind-each")).collect();
+        if secs.is_empty() {
+            return;
+        }
+        if !self.rules.contains("R17") {
+            undecided(&format!("{ctx}: //@guard / //@unwind-each need rule R17"));
+        }
+        let split = |s: &Section| -> (String, String) {
+            let a = s.arg.trim();
+            let a = a.strip_prefix("R17").map(|x| x.trim()).unwrap_or_else(|| undecided(&format!("{ctx}: //@{} needs `R17 ..`", s.kind)));
+            match a.find('|') {
+                Some(p) => (a[..p].trim().to_string(), a[p + 1..].trim().to_string()),
+                None => (a.to_string(), String::new()),
+            }
+        };
+        let mut guards: Vec<Guard> = vec![];
+        let mut params: Vec<(String, String)> = vec![];
+        for s in &secs {
+            let sctx = format!("{ctx} ({}:{})", s.file, s.line0 - 1);
+            match s.kind.as_str() {
+                "guard" => {
+                    let (anchor, drop) = split(s);
+                    if drop.is_empty() { undecided(&format!("{sctx}: //@guard needs `R17 ANCHOR | DROP-TEXT`")) }
+                    // optional filter `argc=0`: only calls without arguments (`x.enter()` returns the guard, `ctxt.enter(&mut frame)` does not)
+                    let (anchor, noargs) = match anchor.strip_suffix("argc=0") { Some(a) => (a.trim().to_string(), true), None => (anchor, false) };
+                    for n in resolve(scan, &anchor, true, &sctx) {
+                        if noargs && n.aux.map(|(_, has)| has).unwrap_or(false) {
+                            continue;
+                        }
+                        let lets: Vec<&Node> = scan.nodes.iter().filter(|m| m.kind == "let" && m.range == n.stmt).collect();
+                        if lets.len() != 1 || lets[0].name.is_empty() || lets[0].name == "_" {
+                            undecided(&format!("{sctx}: R17: the guard expression at line {} is not bound by a plain `let NAME` (a temporary or `let _` is dropped at once: not supported)", self.line_of(n.range.start)));
+                        }
+                        let Some(bidx) = scan.blocks.iter().position(|l| l.iter().any(|r| *r == n.stmt)) else { undecided(&format!("{sctx}: R17: no enclosing block")) };
+                        if guards.iter().any(|g| g.let_end == n.stmt.end) {
+                            continue;
+                        }
+                        guards.push(Guard { name: lets[0].name.clone(), let_end: n.stmt.end, block: scan.block_info[bidx].0.clone(), bidx, drop: drop.replace("$g", &lets[0].name) });
+                    }
+                }
+                "guard-param" => {
+                    let (name, drop) = split(s);
+                    params.push((name.clone(), drop.replace("$g", &name)));
+                }
+                _ => {}
+            }
+        }
+        guards.sort_by_key(|g| g.let_end);
+        // early exits while a guard is live: not supported
+        for n in scan.nodes.iter().filter(|n| matches!(n.kind, "return" | "try" | "break" | "continue")) {
+            let live_local = guards.iter().any(|g| g.let_end <= n.range.start && g.block.start <= n.range.start && n.range.end <= g.block.end);
+            let blocking = match n.kind {
+                "return" => false, // handled below: the live guards' destructors run before the return
+                "try" => live_local || !params.is_empty(),
+                _ => guards.iter().any(|g| g.let_end <= n.range.start && g.block.start <= n.range.start && n.range.end <= g.block.end
+                    && !scan.nodes.iter().any(|l| matches!(l.kind, "while" | "for" | "loop") && g.block.start <= l.range.start && l.range.end <= g.block.end && l.range.start <= n.range.start && n.range.end <= l.range.end)),
+            };
+            if blocking {
+                undecided(&format!("{ctx}: R17: `{}` at line {} leaves a scope while a guard is live (not supported)", n.kind, self.line_of(n.range.start)));
+            }
+        }
+        let o = self.gen("R17");
+        // normal path: destructors at the end of the declaring block (locals in reverse order, then by-value parameters at the body's end)
+        let fn_bidx = scan.block_info.iter().position(|(r, _)| *r == scan.fn_block);
+        let mut bidxs: Vec<usize> = guards.iter().map(|g| g.bidx).collect();
+        if !params.is_empty() {
+            if let Some(b) = fn_bidx { bidxs.push(b) } else { undecided(&format!("{ctx}: R17: //@guard-param needs a whole-function extraction")) }
+        }
+        bidxs.sort();
+        bidxs.dedup();
+        let mut closing: Vec<(usize, String)> = vec![];
+        for (k, b) in bidxs.iter().enumerate() {
+            let (range, tail) = scan.block_info[*b].clone();
+            let mut drops = String::new();
+            for g in guards.iter().rev().filter(|g| g.bidx == *b) {
+                drops.push_str(&g.drop);
+                drops.push(' ');
+            }
+            if Some(*b) == fn_bidx {
+                for (_, d) in &params {
+                    drops.push_str(d);
+                    drops.push(' ');
+                }
+            }
+            self.rule_log("R17", &range, &format!("scope-end destructor calls made explicit: `{}`", drops.trim()));
+            match tail {
+                Some(t) => {
+                    // the opening part now, the closing part after the unwind edges (a may-panic call can BE the tail expression)
+                    self.ins(t.start, format!("let __r17_{k} = "), o.clone(), "rewrite");
+                    closing.push((t.end, format!("; {drops}__r17_{k}")));
+                }
+                None => closing.push((range.end - 1, format!(" {drops}"))),
+            }
+        }
+        // unwinding path: at every call that may panic, the destructors of the live guards
+        for s in secs.iter().filter(|s| s.kind == "unwind-each") {
+            let sctx = format!("{ctx} ({}:{})", s.file, s.line0 - 1);
+            let (anchor, _) = split(s);
+            let t = s.text.trim();
+            let Some(p) = t.find("$$") else { undecided(&format!("{sctx}: //@unwind-each body needs $$")) };
+            let uo = Origin::Unit { file: s.file.clone(), line: s.line0 };
+            for n in resolve(scan, &anchor, true, &sctx).into_iter().cloned().collect::<Vec<Node>>() {
+                let mut drops = String::new();
+                for g in guards.iter().rev().filter(|g| g.let_end <= n.range.start && g.block.start <= n.range.start && n.range.end <= g.block.end) {
+                    drops.push_str(&g.drop);
+                    drops.push(' ');
+                }
+                for (_, d) in &params {
+                    drops.push_str(d);
+                    drops.push(' ');
+                }
+                self.rule_log("R17", &n.range, &format!("may-panic call: unwind edge with destructor calls `{}`", drops.trim()));
+                let sec = format!("unwind-each:{anchor}");
+                self.ins(n.range.start, t[..p].replace("$unwind", &drops), uo.clone(), &sec);
+                self.ins(n.range.end, t[p + 2..].replace("$unwind", &drops), uo.clone(), &sec);
+            }
+        }
+        for (at, text) in closing {
+            self.ins(at, text, o.clone(), "rewrite");
+        }
+        // `return E` while guards are live: `{ let __r = E; <destructors of the live guards, reverse order, then parameters> return __r; }`
+        for (k, n) in scan.nodes.iter().filter(|n| n.kind == "return").cloned().collect::<Vec<Node>>().into_iter().enumerate() {
+            let mut drops = String::new();
+            for g in guards.iter().rev().filter(|g| g.let_end <= n.range.start && g.block.start <= n.range.start && n.range.end <= g.block.end) {
+                drops.push_str(&g.drop);
+                drops.push(' ');
+            }
+            for (_, d) in &params {
+                drops.push_str(d);
+                drops.push(' ');
+            }
+            if drops.is_empty() {
+                continue;
+            }
+            self.rule_log("R17", &n.range, &format!("`return` with live guards: destructor calls `{}` before it", drops.trim()));
+            match n.body.clone() {
+                Some(e) => {
+                    self.rep(n.range.start..e.start, format!("{{ let __r17r_{k} = "), o.clone(), "rewrite");
+                    self.ins(e.end, format!("; {drops}return __r17r_{k}; }}"), o.clone(), "rewrite");
+                }
+                None => {
+                    self.rep(n.range.clone(), format!("{{ {drops}return; }}"), o.clone(), "rewrite");
+                }
             }
         }
     }
@@ -1595,7 +1779,7 @@ fn main() {
                 let found = find_in_items(src, &file.items, &path, &ctx);
                 let mut g = Gen { repo_file: ex.file.clone(), src, edits: vec![], seq: 0, log: vec![], rules: ex.rules.clone(), ctx: ctx.clone(), canary,
                     recorded: &recorded, observed: BTreeMap::new(), key_prefix: format!("{}|{}", ex.file, ex.path.join(" / ")), key_seen: BTreeMap::new(),
-                    allow_gone: false, gone: false, shifts: &shifts, hint_seen: BTreeMap::new(), hint_keys: vec![], renames: vec![] };
+                    allow_gone: false, gone: false, shifts: &shifts, hint_seen: BTreeMap::new(), hint_keys: vec![], renames: vec![], in_sub: false };
                 let spec_for = |name: &str| ex.fns.iter().find(|f| f.name == name || f.name.is_empty());
                 let (region, func_label): (Range<usize>, String);
                 let mut prefix = String::new();
@@ -1661,7 +1845,7 @@ fn main() {
                                 g.make_pub(&s.vis, br(s.const_token.span()).start);
                                 if g.rules.contains("R13") {
                                     let blk: syn::Block = syn::Block { brace_token: Default::default(), stmts: vec![] };
-                                    let scan = Scan { nodes: vec![], stmts: vec![], fn_block: 0..0, blocks: vec![] };
+                                    let scan = Scan { nodes: vec![], stmts: vec![], fn_block: 0..0, blocks: vec![], block_info: vec![] };
                                     let spec = FnSpec::default();
                                     let _ = &blk;
                                     g.const_rules(&s.expr, &scan, &spec);
